@@ -78,23 +78,27 @@ def theorem_index(files, skip_generated_shape=False):
     out = []
     for pat in files:
         for f in sorted(glob.glob(os.path.join(LEAN, pat))):
-            ns = []
+            stack = []  # ("ns", name) | ("sec", name)
             for i, line in enumerate(open(f), 1):
                 m = re.match(r"^namespace\s+(\S+)", line)
                 if m:
-                    ns.append(m.group(1))
+                    stack.append(("ns", m.group(1)))
                     continue
-                if re.match(r"^end\s+\S+", line) and ns:
-                    ns.pop()
+                if re.match(r"^(noncomputable\s+)?section\b", line):
+                    stack.append(("sec", ""))
+                    continue
+                if re.match(r"^end\b", line) and stack:
+                    stack.pop()
                     continue
                 m = re.match(r"^(?:private\s+|protected\s+)?theorem\s+([^\s:({\[]+)", line)
                 if m:
+                    ns = [n for k, n in stack if k == "ns"]
                     out.append((".".join(ns + [m.group(1)]), os.path.relpath(f, LEAN), i))
     return out
 
 
-def build(modules, timeout):
-    rc, out, dt = sh(["lake", "build"] + modules + ["gsdriver"], cwd=LEAN, timeout=timeout)
+def build(modules, timeout, drivers=("gsdriver",)):
+    rc, out, dt = sh(["lake", "build"] + modules + list(drivers), cwd=LEAN, timeout=timeout)
     errs = []
     for m in re.finditer(r"^error: ([^\s:]+\.lean):(\d+):(\d+): (.*)$", out, re.M):
         errs.append(dict(file=m.group(1), line=int(m.group(2)), msg=m.group(4)[:300]))
@@ -231,7 +235,7 @@ def main():
             report["obligations"] = len(thms)
             discharged = 0
             if gen.get("status") == "ok" or not cfg.get("needs_generated", True):
-                b = build(cfg["modules"], timeout=3000)
+                b = build(cfg["modules"], timeout=3000, drivers=cfg.get("drivers", ("gsdriver",)))
                 report["build"] = {k: v for k, v in b.items() if k != "tail"}
                 if b["ok"]:
                     au = audit(pid, cfg["modules"], thms, timeout=900)
